@@ -33,13 +33,133 @@ theorem writeDotPieces_ok (pieces : List (List UInt8)) (script : List Ev) (h : S
   obtain ⟨s', _, e⟩ := writePieces_ok pieces script h
   simp [writeDotPieces, e]
 
+/-! ### the pieces are a division of the text -/
+
+theorem byteArray_toList_loop (bs : ByteArray) : ∀ (k i : Nat) (r : List UInt8), bs.size - i = k →
+    ByteArray.toList.loop bs i r = r.reverse ++ bs.data.toList.drop i := by
+  intro k
+  induction k with
+  | zero =>
+    intro i r h
+    rw [ByteArray.toList.loop]
+    have : ¬ i < bs.size := by omega
+    rw [if_neg this, List.drop_of_length_le (by simp only [Array.length_toList]; exact Nat.le_of_not_lt this)]
+    simp
+  | succ k ih =>
+    intro i r h
+    rw [ByteArray.toList.loop]
+    have hi : i < bs.size := by omega
+    rw [if_pos hi, ih (i + 1) _ (by omega)]
+    have hd : bs.data.toList.drop i = bs.data[i] :: bs.data.toList.drop (i + 1) := by
+      rw [List.drop_eq_getElem_cons (by simpa using hi)]
+      simp
+    have hg : bs.get! i = bs.data[i] := by
+      simp [ByteArray.get!, hi]
+    rw [hd, hg]
+    simp
+
+theorem byteArray_toList (bs : ByteArray) : bs.toList = bs.data.toList := by
+  unfold ByteArray.toList
+  rw [byteArray_toList_loop bs bs.size 0 [] rfl]
+  simp
+
+theorem textBytes_append (s t : String) : textBytes (s ++ t) = textBytes s ++ textBytes t := by
+  unfold textBytes
+  simp only [byteArray_toList, String.toUTF8_eq_toByteArray, String.toByteArray_append, ByteArray.data_append,
+    Array.toList_append]
+
+theorem textBytes_ofList (l : List Char) : textBytes (String.ofList l) = l.flatMap String.utf8EncodeChar := by
+  unfold textBytes
+  rw [byteArray_toList, String.toUTF8_eq_toByteArray, String.toByteArray_ofList, List.utf8Encode,
+    List.toList_data_toByteArray]
+
+theorem header_piece_ne : textBytes (String.ofList (tHeader ++ ['\n'])) ≠ [] := by
+  rw [textBytes_ofList]; decide
+
+theorem textBytes_empty : textBytes (String.ofList []) = [] := by
+  simp [textBytes, byteArray_toList, String.toUTF8_eq_toByteArray]
+
+theorem textBytes_flatten : ∀ (ps : List (List Char)),
+    (ps.map fun cs => textBytes (String.ofList cs)).flatten = textBytes (String.ofList ps.flatten)
+  | [] => textBytes_empty.symm
+  | p :: ps => by
+    simp only [List.map_cons, List.flatten_cons, String.ofList_append, textBytes_append, textBytes_flatten ps]
+
+theorem stmtPieces_flatten (s : Stmt) : (stmtPieces s).flatten = renderStmt s ++ ['\n'] := by
+  cases s <;> simp [stmtPieces, renderStmt]
+
+theorem pieces_chars : ∀ (ss : List Stmt),
+    (ss.flatMap stmtPieces).flatten = ss.flatMap fun s => renderStmt s ++ ['\n']
+  | [] => rfl
+  | s :: ss => by
+    simp only [List.flatMap_cons, List.flatten_append, stmtPieces_flatten, pieces_chars ss]
+
+/-- the `write_all` pieces of a statement list are a division of the bytes of its text -/
+theorem piecesOf_flatten (ss : List Stmt) : (piecesOf ss).flatten = textBytes (render ss) := by
+  unfold piecesOf render
+  rw [textBytes_flatten, pieces_chars]
+
+/-! ### `writeDotIO` -/
+
+theorem takeWhile_length_eq {α} (p : α → Bool) : ∀ (l : List α),
+    (l.takeWhile p).length = l.length ↔ ∀ x ∈ l, p x = true
+  | [] => by simp
+  | a :: l => by
+    simp only [List.takeWhile_cons]
+    cases h : p a with
+    | false => simp [h]
+    | true =>
+      simp only [if_true, List.length_cons, List.mem_cons, forall_eq_or_imp, h, true_and]
+      rw [← takeWhile_length_eq p l]; omega
+
+/-- all decision nodes have a named variable iff the model's export does not hit `var_names[var]` out of bounds -/
+theorem named_all_iff (A : Arr) (names : List String) :
+    (namedPrefix A names).length = (innerPtrs A).length ↔
+      ((innerPtrs A).any fun p => decide (names.length ≤ (nodeAt A p).var)) = false := by
+  unfold namedPrefix
+  rw [takeWhile_length_eq, List.any_eq_false]
+  constructor
+  · intro h p hp; have := h p hp; simp at this ⊢; omega
+  · intro h p hp; have := h p hp; simp at this ⊢; omega
+
+/-- on a sink without fault the export through the sink is `to_dot_string`: same panics, same text -/
 theorem writeDotIO_ok (A : Arr) (names : List String) (pruned : Bool) (script : List Ev) (h : ScriptOk script) :
     writeDotIO A names pruned script = (toDotString A names pruned).map fun t => (true, textBytes t) := by
+  unfold writeDotIO toDotString dotStmts
+  by_cases h0 : A.size = 0
+  · rw [if_pos h0, if_pos h0]; rfl
+  rw [if_neg h0, if_neg h0]
+  by_cases hn : names.length ≠ numVars A
+  · rw [if_pos hn, if_pos hn]; rfl
+  rw [if_neg hn, if_neg hn]
+  by_cases hall : (namedPrefix A names).length = (innerPtrs A).length
+  · have ha := (named_all_iff A names).1 hall
+    simp only [hall, if_true, ha, Bool.false_eq_true, if_false, Outcome.map]
+    rw [writeDotPieces_ok _ script h, piecesOf_flatten]
+  · have ha : ((innerPtrs A).any fun p => decide (names.length ≤ (nodeAt A p).var)) = true := by
+      cases hc : (innerPtrs A).any fun p => decide (names.length ≤ (nodeAt A p).var) with
+      | true => rfl
+      | false => exact absurd ((named_all_iff A names).2 hc) hall
+    simp only [hall, if_false, ha, if_true, Outcome.map]
+    rw [writeDotPieces_ok _ script h]
+    rfl
+
+/-- **order of the code**: a sink error that comes before the node whose variable has no name is returned (no
+    panic); if all writes before that node succeed the export panics -/
+theorem writeDotIO_bad (A : Arr) (names : List String) (pruned : Bool) (script : List Ev) (h0 : A.size ≠ 0)
+    (hn : names.length = numVars A) (hb : (namedPrefix A names).length ≠ (innerPtrs A).length) :
+    writeDotIO A names pruned script =
+      (let r := writeDotPieces (piecesOf (preamble A pruned ++
+          (namedPrefix A names).flatMap (nodeStmts A names pruned))) script
+       if r.1 then .panic "index out of bounds: var_names[var]" else .ok r) := by
   unfold writeDotIO
-  congr 1
-  funext t
-  obtain ⟨s', _, e⟩ := writeAll_ok script (textBytes t) h
-  simp [e]
+  simp only [h0, if_false, hn, ne_eq, not_true_eq_false, hb]
+
+theorem writeDotIO_good (A : Arr) (names : List String) (pruned : Bool) (script : List Ev) (h0 : A.size ≠ 0)
+    (hn : names.length = numVars A) (hb : (namedPrefix A names).length = (innerPtrs A).length) :
+    writeDotIO A names pruned script = .ok (writeDotPieces (piecesOf (stmtsOf A names pruned)) script) := by
+  unfold writeDotIO
+  simp only [h0, if_false, hn, ne_eq, not_true_eq_false, hb, if_true]
 
 /-- any sink: what reached it is a prefix of the text; `Ok` means all of it; `Err` means a fault event
     (hard error or zero-length write) was consumed -/
@@ -59,5 +179,29 @@ theorem writeDotPieces_fail_first (p : List UInt8) (ps : List (List UInt8)) (s :
   have hl : p.length ≠ 0 := by
     intro h; exact hp (List.eq_nil_of_length_eq_zero h)
   simp [writeDotPieces, writePieces, writeAll, hl]
+
+/-- a hard error of the sink's first `write` call is returned with nothing written — also when some decision node's
+    variable has no name (the panic of `to_dot_string` is never reached) -/
+theorem writeDotIO_fail_first (A : Arr) (names : List String) (pruned : Bool) (s : List Ev) (h0 : A.size ≠ 0)
+    (hn : names.length = numVars A) : writeDotIO A names pruned (.fail :: s) = .ok (false, []) := by
+  have hp : ∀ rest : List Stmt, writeDotPieces (piecesOf (preamble A pruned ++ rest)) (.fail :: s) = (false, []) := by
+    intro rest
+    have : piecesOf (preamble A pruned ++ rest) =
+        textBytes (String.ofList (tHeader ++ ['\n'])) :: piecesOf ((preamble A pruned ++ rest).tail) := by
+      unfold preamble piecesOf; rfl
+    rw [this]
+    have hl : (textBytes (String.ofList (tHeader ++ ['\n']))).length ≠ 0 := by
+      intro h; exact header_piece_ne (List.eq_nil_of_length_eq_zero h)
+    generalize textBytes (String.ofList (tHeader ++ ['\n'])) = p at hl
+    have hw : writeAll (.fail :: s) p = (false, [], s) := by
+      rw [writeAll]; simp [hl]
+    simp only [writeDotPieces, writePieces, hw]
+  by_cases hb : (namedPrefix A names).length = (innerPtrs A).length
+  · rw [writeDotIO_good A names pruned _ h0 hn hb]
+    unfold stmtsOf
+    rw [List.append_assoc, hp]
+  · rw [writeDotIO_bad A names pruned _ h0 hn hb]
+    simp only [hp]
+    rfl
 
 end B.Dot
